@@ -2,7 +2,7 @@
 import crashcheck
 
 PID = 'C03'
-TAGS = {'crashkill', 'crashopen', 'crashview', 'crashinvented', 'recover', 'conforms'}
+TAGS = {'crashkill', 'crashopen', 'crashview', 'crashinvented', 'recover', 'conforms', 'crashfollow'}
 THEOREMS = [
     'Lcdb.C03.kill_recovers',
     'Lcdb.C03.kill_durable',
@@ -15,7 +15,7 @@ TARGETS = ['LcdbModel.Props.C03']
 
 
 def run(tier):
-    return crashcheck.run_crash(PID, tier, TAGS, THEOREMS, IMPORTS, TARGETS, '0', False)
+    return crashcheck.run_crash(PID, tier, TAGS, THEOREMS, IMPORTS, TARGETS, '0', 'follow')
 
 
 def replay(path):
